@@ -75,7 +75,11 @@ pub fn check(c: &Case) -> Result<(), String> {
     }
     if c.alg == 2 && c.outlen <= 256 {
         // object API: hash_with_salt + verify
-        let cfg = Config::interactive().with_opslimit(c.ops).with_memlimit(c.mem).with_hash_length(c.outlen).with_salt_length(c.salt.len());
+        let cfg = match (c.outlen + c.salt.len()) % 3 {
+            0 => Config::interactive().with_opslimit(c.ops).with_memlimit(c.mem).with_hash_length(c.outlen).with_salt_length(c.salt.len()),
+            1 => Config::moderate().with_salt_length(c.salt.len()).with_hash_length(c.outlen).with_memlimit(c.mem).with_opslimit(c.ops),
+            _ => Config::sensitive().with_hash_length(c.outlen).with_memlimit(c.mem).with_opslimit(c.ops).with_salt_length(c.salt.len()),
+        };
         let h = PwHash::<Vec<u8>, Vec<u8>>::hash_with_salt(&c.password.0, c.salt.0.clone(), cfg).map_err(|e| format!("hash_with_salt: {e:?}"))?;
         let (hash, _, _) = h.clone().into_parts();
         if hash != want {
